@@ -13,6 +13,7 @@ labelled streams (`gen_finding`), one known defect shape each:
                  field), nested-leaf (struct port with a nested-struct / list field in output direction), struct-wire (struct
                  wire written by field and read whole or vice versa), comp-array (list of sub-components with a struct input)
    F17 (verilog) for loop with a negative step that does not land on the bound (unsigned loop variable wraps)
+   F23 (yosys)   truncating BitsN() cast (the PyMTL simulation of such a design raises): `( a + b )[3:0]`, `3'(i)[1:0]` are not legal text
 regression streams (`gen_fixed`): the shapes of defects repaired by fix: commits (F15, F16, F16b, F18, F19, F20, F21, F22); expected clean.
 """
 import math
@@ -799,11 +800,13 @@ F7 = 'F7-same-class-name-different-bodies'
 F20 = 'F20-yosys-2d-list-of-interfaces-or-subcomponents-transposed'
 F21 = 'F21-verilog-2d-port-list-of-listed-subcomponent'
 F22 = 'F22-yosys-cast-of-compound-unparenthesised'
+F23 = 'F23-yosys-truncating-cast-selects-an-expression'
 
 FINDING_STREAMS = {
   # id -> (backends, expected violation kinds)
   F10: (('yosys',), ('multi-driver', 'undriven', 'output-mismatch')),
   F17: (('verilog',), ('loop-overrun', 'output-mismatch')),
+  F23: (('yosys',), ('syntax-invalid',)),
 }
 FIXED_STREAMS = {
   # shapes of repaired defects: ordinary clean cases now
@@ -937,6 +940,15 @@ def gen_finding(rng, be, fid):
     op1, op2 = rng.choice([('^', '|'), ('&', '|'), ('&', '^'), ('-', '+'), ('^', '|')])
     L += ['class Top( Component ):', '  def construct( s ):', f'    s.a = InPort( Bits{w} )', f'    s.b = InPort( Bits{w} )', f'    s.o = OutPort( Bits{w} )',
           '    @update', '    def up():', f'      s.o @= s.a {op1} Bits{w}( s.b {op2} {rng.randint(1, (1 << w) - 1)} )']
+  elif fid == F23:
+    W = w + rng.choice([1, 4])
+    variant = rng.choice(['compound', 'loopvar'])
+    L += ['class Top( Component ):', '  def construct( s ):', f'    s.a = InPort( Bits{W} )', f'    s.b = InPort( Bits{W} )', f'    s.o = OutPort( Bits{w} )']
+    if variant == 'compound':
+      L += ['    @update', '    def up():', f"      s.o @= Bits{w}( s.a {rng.choice('+^&|')} s.b )"]
+    else:
+      n = (1 << w) + 1                      # the loop variable needs w+1 bits; PyMTL raises at the last iteration only
+      L += ['    @update', '    def up():', '      s.o @= 0', f'      for i in range({n}):', f'        s.o @= Bits{w}( i ) + trunc( s.a, {w} )']
   elif fid == F7:
     k = rng.sample(range(1, 1 << max(w, 2)), 2)
     w = max(w, 2)
